@@ -41,14 +41,22 @@ class Leaf:
 
 
 class World:
-    """One symbolic world: atoms for the placeholders, in-memory files, stubs installed into fcp.parser."""
+    """One symbolic world: atoms for the placeholders, template files written to a scratch directory (the real code
+    reads them however it likes), the Earley parser stubbed at its boundary inside fcp.parser."""
 
     def __init__(self, files: dict):
         add_repo_paths()
+        import atexit
+        import shutil
+        import tempfile
         from fcp import parser as P
 
         self.P = P
-        self.files = {str(pathlib.PurePosixPath(ROOT) / k): v for k, v in files.items()}
+        self.root = tempfile.mkdtemp(prefix="verif_fs_")
+        atexit.register(shutil.rmtree, self.root, ignore_errors=True)
+        self.files = {}
+        for k, v in files.items():
+            self.write(k, v)
         self.space = AtomSpace()
         self.atoms = {}
         self.real_parser = getattr(P, "_verif_real_parser", None) or P.fcp_parser
@@ -62,17 +70,22 @@ class World:
             def __getattr__(self, n):
                 return getattr(world.real_parser, n)
 
-        def open_stub(filename, *a, **k):
-            key = str(filename)
-            if key not in world.files:
-                e = FileNotFoundError(2, "No such file or directory")
-                e.filename = key
-                raise e
-            return io.StringIO(world.files[key])
-
         P.fcp_parser = ParserStub()
-        P.open = open_stub
         P.str = StrNS
+
+    def write(self, rel, text, root=None):
+        import os
+        path = os.path.join(root or self.root, rel)
+        os.makedirs(os.path.dirname(path), exist_ok=True)
+        with open(path, "w") as f:
+            f.write(text)
+        if root is None:
+            self.files[rel] = text
+        return path
+
+    def cleanup(self):
+        import shutil
+        shutil.rmtree(self.root, ignore_errors=True)
 
     def atom(self, name):
         if name not in self.atoms:
@@ -82,23 +95,23 @@ class World:
     def prime_decoy(self):
         """History: the same process parsed, through the same public entry point, another project whose files have the
         same names but other contents (declaration kinds swapped in every module file)."""
-        droot = "/nonexistent_verif_fs/decoy"
-        for rel_full, text in list(self.files.items()):
-            rel = rel_full[len(ROOT) + 1:]
-            if rel not in ("main.fcp", "single.fcp"):
-                text = re.sub(r"enum (\w+) \{[^}]*\}", lambda m: "struct %s { zz @0: u8, }" % m.group(1), text)
-                text = re.sub(r"struct (N\d+) \{[^}]*\}(?!\s*//kept)",
-                              lambda m: "enum %s { ZA = 0, }" % m.group(1), text) if "enum" not in self.files[rel_full] else text
-            self.files[droot + "/" + rel] = text
-        self.symbolic = False
+        import shutil
+        import tempfile
+        droot = tempfile.mkdtemp(prefix="verif_fs_decoy_")
         try:
-            self.P.get_fcp(droot + "/main.fcp")
-        except Exception:
-            pass
+            for rel, text in list(self.files.items()):
+                if rel not in ("main.fcp", "single.fcp"):
+                    text = re.sub(r"enum (\w+) \{[^}]*\}", lambda m: "struct %s { zz @0: u8, }" % m.group(1), text)
+                self.write(rel, text, root=droot)
+            self.symbolic = False
+            try:
+                import os
+                self.P.get_fcp(os.path.join(droot, "main.fcp"))
+            except Exception:
+                pass
         finally:
             self.symbolic = True
-            for k in [k for k in self.files if k.startswith(droot)]:
-                del self.files[k]
+            shutil.rmtree(droot, ignore_errors=True)
 
     symbolic = True
 
@@ -115,7 +128,8 @@ class World:
 
     def run(self, main="main.fcp"):
         # the public entry point with its default logger (a default argument shared by all calls of the process)
-        return self.P.get_fcp(str(pathlib.PurePosixPath(ROOT) / main))
+        import os
+        return self.P.get_fcp(os.path.join(self.root, main))
 
     def prescan(self):
         """Create the atoms of every file up front (so assumptions can mention them)."""
@@ -461,7 +475,7 @@ def c20_case(args):
     Wd = World(split_files)
     Wd.prescan()
     # the single-file text goes into the same world (same atoms) under another root file name
-    Wd.files[str(pathlib.PurePosixPath(ROOT) / "single.fcp")] = single_files["main.fcp"]
+    Wd.write("single.fcp", single_files["main.fcp"])
     Wd.subst(Wd.real_parser.parse(single_files["main.fcp"]))
     Wd.prime_decoy()
     assume = Wd.distinct_decls([d for d in decl_names if d in Wd.atoms])
